@@ -5,10 +5,11 @@
 -/
 import Imeta.Driver.Tiff
 import Imeta.Driver.ImageType
+import Imeta.Driver.Enums
 open Imeta
 
 def handlers : List (List String → Option String) :=
-  [Tiff.handle, ImageType.handle]
+  [Tiff.handle, ImageType.handle, EnumsDrv.handle]
 
 def dispatch (line : String) : String :=
   let toks := (line.trimAscii.toString.splitOn " ").filter (· ≠ "")
